@@ -1,6 +1,7 @@
 """check.py configuration of C03 (BC1-BC5 part; BC6H/BC7 are sub-check C03x)."""
 
 CFG = {
+    "sub_checks": ["C03x"],
     "claim": "Proof: for EVERY 8-/16-byte block the implementation-shaped model of the BC1, BC2, BC3, BC4 U/S and "
              "BC5 U/S decoders (bc.rs blocks::*, formats.rs B5G6R5/n4/n5/n6/n8/s8) equals the specification model "
              "(exact rational interpolation of the endpoints, nearest representable value; BC1 three-colour mode iff "
